@@ -15,7 +15,7 @@ FALSE = z3.BoolVal(False)
 
 fsize = z3.Function("fsize", T.FileState, T.I)
 sdir = z3.Function("sdir", T.I, T.S, T.S)      # directory holding the file of kind/key
-relstr = z3.Function("relstr", T.S, T.S, T.S)  # rendering of a cwd-relative path
+relstr = z3.Function("relstr", T.S, T.S, T.S, T.S)  # rendering of a cwd-relative path
 T.trusted("fsize", "os.path.getsize: len(bytes) for a binary file; 0 for a line file iff it has "
           "no line")
 T.trusted("directories", "a file exists only inside an existing directory; os.makedirs creates "
@@ -78,12 +78,10 @@ class Lib:
             z3.Implies(z3.Or(kind == T.K_OBJ, kind == T.K_META), z3.Or(T.is_Absent(st),
                                                                         T.is_Data(st))),
             z3.Implies(T.present(st), z3.Select(dirs0, self.parent_dir_of_loc(loc))),
+            # no file of the working directory is named like a hex digest (cwd-relative fallbacks
+            # of _get_hashstore_data_object_path / _get_hashstore_metadata_path find nothing)
+            z3.Implies(z3.And(kind == T.K_EXT, T.ishex(T.l_k1(loc))), T.is_Absent(st)),
         ]
-        x = z3.Const("x!ln", T.S)
-        m = T.f_lines(st)
-        facts.append(z3.ForAll([x], z3.And(z3.Select(m, x) >= 0,
-                                           z3.Implies(z3.Select(m, x) > 0, T.wsfree(x))),
-                               patterns=[z3.Select(m, x)]))
         for f in facts:
             ctx.assume(f)
 
@@ -134,6 +132,12 @@ class Lib:
             return T.loc(T.K_EXT, parts[0][1], marks=p.marks)
         if a == A_EXT and kinds == ["loc"]:
             return parts[0][1]
+        if a == A_EXT and kinds == ["garbage"]:
+            # the path obtained by sharding an absolute path string and joining the tokens:
+            # assumed to name no file
+            l = T.loc(T.K_EXT, z3.Concat(z3.StringVal("<sharded>:"), parts[0][1]), marks=p.marks)
+            it.ctx.assume(T.is_Absent(z3.Select(it.ctx.st.fs, l)))
+            return l
         if a == A_REL or (a in (A_OBJECTS, A_METADATA) and parts):
             # cwd-relative probe or a non-layout path under objects/ or metadata/: an external
             # location that is assumed to hold no file (DESIGN §5 C18)
@@ -461,6 +465,11 @@ class Lib:
                     continue
                 newparts = r.parts
             elif isinstance(r, VShard):
+                if getattr(r, "absolute", False):
+                    # tokens of an absolute path string: the first one starts with "/" and resets
+                    # the join; the result is a path outside the layout
+                    p = VPath(A_EXT, (("garbage", r.key),), False)
+                    continue
                 newparts = (("shard", r.key),)
             elif isinstance(r, (VStr, VDyn)):
                 s = self.need_str(it, r, "TypeError")
@@ -615,9 +624,9 @@ class Lib:
                 it.raise_("IndexError")
             raise Undecided("symbolic index")
         if isinstance(obj, VDict):
-            for g, k, v in obj.entries:
-                if it.ctx.branch(z3.And(g, self.eq(it, k, key))):
-                    return v
+            r = self.dict_lookup(it, obj, key)
+            if r is not None:
+                return r
             it.raise_("KeyError")
         if isinstance(obj, VObj) and obj.cls == "symdict":
             k = self.need_str(it, key, "KeyError")
@@ -627,6 +636,28 @@ class Lib:
         if isinstance(obj, VNone):
             it.raise_("TypeError")
         raise Undecided(f"subscript of {obj}")
+
+    def dict_lookup(self, it, d, key):
+        """Value of key in d, or None when absent (one fork on presence; values merged by ite
+        when they are all strings)."""
+        conds = [z3.simplify(z3.And(g, self.eq(it, k, key))) for g, k, _ in d.entries]
+        live = [(c, v) for c, (_, _, v) in zip(conds, d.entries) if not z3.is_false(c)]
+        if not live:
+            return None
+        for c, v in live:
+            if z3.is_true(c):
+                return v
+        if all(isinstance(v, VStr) for _, v in live):
+            if not it.ctx.branch(z3.Or(*[c for c, _ in live])):
+                return None
+            val = live[-1][1].term
+            for c, v in reversed(live[:-1]):
+                val = z3.If(c, v.term, val)
+            return VStr(val)
+        for c, v in live:
+            if it.ctx.branch(c):
+                return v
+        return None
 
     def setitem(self, it, obj, key, v):
         if isinstance(obj, VDict):
@@ -677,8 +708,12 @@ class Lib:
                 g2 = z3.simplify(z3.And(g, z3.Not(z3.Or(FALSE, *dup))))
                 if z3.is_false(g2):
                     continue
+                # optional elements are decided here (path fork), so that every later list,
+                # zip and dict built from the set has a concrete skeleton
+                if not z3.is_true(g2) and not it.ctx.branch(g2):
+                    continue
                 items.append(e)
-                guards.append(g2)
+                guards.append(TRUE)
             return VList(items, guards, kind="set")
         raise Undecided(f"set({lst})")
 
